@@ -540,3 +540,40 @@ mod tests {
         );
     }
 }
+
+#[cfg(feature = "verif")]
+mod verif_hooks {
+    use super::{FilterBodyAction, FilterBodyActionItem};
+
+    impl FilterBodyAction {
+        pub fn verif_in_error(&self) -> bool {
+            self.in_error
+        }
+
+        /// Kind of every stage of the chain, in order
+        pub fn verif_chain(&self) -> Vec<&'static str> {
+            self.chain
+                .iter()
+                .map(|item| match item {
+                    FilterBodyActionItem::Html(_) => "html",
+                    FilterBodyActionItem::Text(_) => "text",
+                    #[cfg(feature = "compress")]
+                    FilterBodyActionItem::Encode(_) => "encode",
+                    #[cfg(feature = "compress")]
+                    FilterBodyActionItem::Decode(_) => "decode",
+                })
+                .collect()
+        }
+
+        /// Per HTML stage: (buffered element contents outermost first, trailing incomplete token)
+        pub fn verif_held(&self) -> Vec<(Vec<Vec<u8>>, Vec<u8>)> {
+            self.chain
+                .iter()
+                .filter_map(|item| match item {
+                    FilterBodyActionItem::Html(html) => Some(html.verif_held()),
+                    _ => None,
+                })
+                .collect()
+        }
+    }
+}
